@@ -37,6 +37,12 @@ func vmLine(opts string, fuel int, bc *ugo.Bytecode, globals ugo.Object, args []
 			cs = append(cs, encodeFn(v))
 		case ugo.Int, ugo.Uint, ugo.Float, ugo.Char, ugo.Bool, ugo.String, *ugo.UndefinedType:
 			cs = append(cs, codec.Encode(c, nil))
+		case ugo.Map, ugo.Array, ugo.Bytes:
+			// builtin-module constants (C12): shipped when they are plain data
+			if !dataOnly(c) {
+				return "", false
+			}
+			cs = append(cs, codec.Encode(c, nil))
 		default:
 			return "", false
 		}
@@ -51,6 +57,29 @@ func vmLine(opts string, fuel int, bc *ugo.Bytecode, globals ugo.Object, args []
 	}
 	return fmt.Sprintf("vm\t%s\t%d\t%d\t%s\t%s\t%s\t%s", opts, fuel, bc.NumModules, encodeFn(bc.Main),
 		strings.Join(cs, ";"), g, strings.Join(as, ";")), true
+}
+
+// dataOnly reports whether o is built from scalars, strings, bytes, arrays and maps only.
+func dataOnly(o ugo.Object) bool {
+	switch v := o.(type) {
+	case ugo.Int, ugo.Uint, ugo.Float, ugo.Char, ugo.Bool, ugo.String, ugo.Bytes, *ugo.UndefinedType:
+		return true
+	case ugo.Array:
+		for _, x := range v {
+			if !dataOnly(x) {
+				return false
+			}
+		}
+		return true
+	case ugo.Map:
+		for _, x := range v {
+			if !dataOnly(x) {
+				return false
+			}
+		}
+		return true
+	}
+	return false
 }
 
 type traceRec struct {
